@@ -141,6 +141,64 @@ def corner_shard(spec, idx, nshards, seed, per_row, cfgname=None):
     return acc
 
 
+def operand_path_shard(spec, idx, nshards, seed, limit):
+    """paths THROUGH from_bitarray: for every path of the class-selection decoder, the provenance-tracking word is pushed on through the selected
+    class's from_bitarray (operand extraction, its special cases - imm5 == 0, Rd == SP with LSL #0..3, register-list counts - and its UNPREDICTABLE
+    tests), every branch there is negated in turn, and the witness of every resulting path is compared with the reference operand decode. A special
+    case somebody adds to (or drops from) one encoding creates (or removes) a path here, however few words it covers. Thumb: enumerated outside an
+    IT block and inside one (decode reads the IT position)."""
+    from vf.sym import sym
+    spec = get_spec(spec)
+    acc = Acc()
+    rng = random.Random(seed)
+    dc.patch()
+    cpu = spec.cpu()
+    regions = [(w, tr, o) for w, tr, o in sym.enumerate_paths(lambda w: dc.outcome_of(spec.decoder, w), spec.nbits, fixed=list(spec.fixed))]
+    truncated = 0
+    for j, (w0, tr, o) in enumerate(regions):
+        if j % nshards != idx or o == 'None' or o.startswith('EXC'):
+            continue
+        for it in ((0, 0x44) if spec.thumb else (0,)):
+            cpu.registers.cpsr.value = (cpu.registers.cpsr.value & ~0x0600FC00) | ((it & 3) << 25) | ((it >> 2) << 10)
+            n = 0
+            try:
+                for w, _tr2, _out in sym.enumerate_paths(lambda x: dc.full_outcome(spec.decoder, x, cpu, spec.nbits)[0], spec.nbits, pre=list(tr), fixed=list(spec.fixed),
+                                                         limit=limit):
+                    n += 1
+                    if spec.skip and spec.skip(w):
+                        continue
+                    a = dc.outcome_of(spec.decoder, w)
+                    row, _ = table_decode(spec.table, w)
+                    check_word(acc, spec, cpu, w, a, row, 'operand-path', rng)
+                    for w3 in sym.boundary_words(int(w), list(sym.HINTS), spec.nbits):
+                        if spec.skip and spec.skip(w3):
+                            continue
+                        row3, _ = table_decode(spec.table, w3)
+                        check_word(acc, spec, cpu, w3, dc.outcome_of(spec.decoder, w3), row3, 'comparison-boundary', rng)
+            except AssertionError:
+                acc.cls('operand-path:tracer-gave-up')          # prefix mismatch: the traced run is not deterministic for this class; its region witnesses still run
+            if n >= limit:
+                truncated += 1
+            # ... and the paths of the REFERENCE operand decode inside the same class-selection region: a special case armulator lacks does not split
+            # armulator's paths, but it splits the reference's (Rd == SP allows LSL #0..#3: the reference compares the amount with 3)
+            try:
+                for w2, _tr3, _o3 in sym.enumerate_paths(lambda x: opnd.ref_outcome(spec, x, cpu.registers.cpsr.value), spec.nbits,
+                                                         fixed=list(spec.fixed) + list(tr), limit=max(limit // 2, 100)):
+                    if spec.skip and spec.skip(w2):
+                        continue
+                    row2, _ = table_decode(spec.table, w2)
+                    check_word(acc, spec, cpu, w2, dc.outcome_of(spec.decoder, w2), row2, 'reference-operand-path', rng)
+                    for w3 in sym.boundary_words(int(w2), list(sym.HINTS), spec.nbits):
+                        if spec.skip and spec.skip(w3):
+                            continue
+                        row3, _ = table_decode(spec.table, w3)
+                        check_word(acc, spec, cpu, w3, dc.outcome_of(spec.decoder, w3), row3, 'comparison-boundary', rng)
+            except AssertionError:
+                acc.cls('operand-path:reference-tracer-gave-up')
+    acc.extra['operand_path_regions_truncated_%d' % spec.nbits] = truncated
+    return acc
+
+
 def replay_word(spec, w, cfgov=None):
     acc = Acc()
     if cfgov is not None:
